@@ -138,6 +138,9 @@ def request : P String := do
       else
         -- `assert np.isscalar(self.dim)` (B-spline); NURBS are scalar/vector by construction
         if (!F.nurbs) && F.vshape.length ≥ 2 then pure "err-AssertionError" else
+        -- `hess[..., i_hess] = apply_tprod(ops, self.coeffs)` with a trailing axis of length 1: numpy can
+        -- assign shape N+(1,) into shape N only if every grid length is 1
+        if (!F.nurbs) && F.vshape == [1] && lens.any (· ≠ 1) then pure "err-ValueError" else
         let nh := (S.sdim * (S.sdim + 1)) / 2
         if F.nurbs then
           pure (showArr (lens ++ outShape F ++ [nh]) (nodes.flatMap (fun g =>
@@ -199,8 +202,10 @@ def request : P String := do
       pure (showFunc (if F.nurbs then F.nurbsGetItems Is else F.bspGetItems Is))
   | "boundary" => do
       let F ← pFunc; let axis ← nat; let side ← nat
-      pure (showFunc (F.boundary axis side))
-  | "copy" => do let F ← pFunc; pure (showFunc F)
+      match F.boundaryCoded axis side with
+      | .ok R => pure (showFunc R)
+      | .error e => pure e
+  | "copy" => do let F ← pFunc; pure (showFunc F.copy)
   | "cw" => do
       let F ← pFunc
       let (C, W) := F.coeffsWeights
